@@ -20,6 +20,7 @@ import (
 	"net/http"
 	"net/url"
 	"reflect"
+	"regexp"
 	"sort"
 	"strings"
 	"sync"
@@ -65,10 +66,11 @@ type c02Deploy struct {
 	Ed25519   bool
 	ECDSA     bool
 	NoNorm    bool
+	Filter    bool // the user-name filter of the Okta password backend (default regexp) is in force; names are typed as name@Domain
 }
 
 func (d c02Deploy) String() string {
-	return fmt.Sprintf("realm=%q,ed=%v,ecdsa=%v,nonorm=%v", d.Realm, d.Ed25519, d.ECDSA, d.NoNorm)
+	return fmt.Sprintf("realm=%q,ed=%v,ecdsa=%v,nonorm=%v,filter=%v", d.Realm, d.Ed25519, d.ECDSA, d.NoNorm, d.Filter)
 }
 
 func c02Deploys() []c02Deploy {
@@ -77,7 +79,10 @@ func c02Deploys() []c02Deploy {
 		for _, ed := range []bool{false, true} {
 			for _, ec := range []bool{false, true} {
 				for _, nn := range []bool{false, true} {
-					res = append(res, c02Deploy{realm, ed, ec, nn})
+					res = append(res, c02Deploy{realm, ed, ec, nn, false})
+					if realm == "" {
+						res = append(res, c02Deploy{realm, ed, ec, nn, true})
+					}
 				}
 			}
 		}
@@ -129,6 +134,9 @@ func c02World(d c02Deploy, ext c02Ext) *vfWorld {
 		Tweak: func(st *RuntimeState) {
 			st.Config.UserInfo.Ldap.LDAPTargetURLs = "ldaps://ldap.example.com"
 			st.Config.UserInfo.Ldap.GroupPrepend = ""
+			if d.Filter {
+				st.oktaUsernameFilterRE = regexp.MustCompile(defaultOktaUsernameFilterRegexp)
+			}
 		}})
 	return w
 }
@@ -219,23 +227,34 @@ func c02PubEqual(a, b crypto.PublicKey) bool {
 	return reflect.DeepEqual(a, b)
 }
 
-func (p c02Point) normUser() string {
+// typedName is the login name as the user types it.
+func (p c02Point) typedName() string {
 	typed := p.Account
-	if p.Typed == "upper" {
-		typed = strings.ToUpper(p.Account)
+	if p.Deploy.Filter {
+		typed += "@Corp.Example.com"
 	}
+	if p.Typed == "upper" {
+		typed = strings.ToUpper(typed)
+	}
+	return typed
+}
+
+func (p c02Point) normUser() string {
+	typed := p.typedName()
 	if !p.Deploy.NoNorm {
-		return strings.ToLower(typed)
+		typed = strings.ToLower(typed)
+	}
+	if p.Deploy.Filter {
+		if i := strings.IndexByte(typed, '@'); i >= 0 {
+			typed = typed[:i]
+		}
 	}
 	return typed
 }
 
 func c02Run(w *vfWorld, p c02Point) (violated bool, key, what, class string) {
 	c02GroupMode = p.Groups
-	typed := p.Account
-	if p.Typed == "upper" {
-		typed = strings.ToUpper(p.Account)
-	}
+	typed := p.typedName()
 	user := p.normUser()
 	// log in through the real endpoint with the name as typed
 	lr := w.Do(vfReq{Method: "POST", Path: "/api/v0/login", Form: url.Values{"username": {typed}, "password": {c02Pw(p.Account)}}}.Build())
@@ -477,7 +496,7 @@ func init() {
 	vfRegister(&vfeng.Check{
 		ID:    "C02",
 		Level: "model_checking",
-		Rule:  "exhaustive product deployment (Kerberos realm none/short/long x Ed25519 CA x RSA/ECDSA primary CA x normalisation) x account name (17 names: cases, dots, dashes, plus, underscore, digits, 1..200 chars, case twins) x name as typed x key (RSA 2048/3072/4096, P-256/384/521, Ed25519) x certificate type, with group mode, SSH extension template set and URL target variant cycled so that every pair occurs (thorough: full product for the default deployment); every returned certificate is decoded independently and compared with (normalised user, submitted key, published CA keys, expected extensions/SAN/groups)",
+		Rule:  "exhaustive product deployment (Kerberos realm none/short/long x Ed25519 CA x RSA/ECDSA primary CA x normalisation x user-name filter on/off) x account name (17 names: cases, dots, dashes, plus, underscore, digits, 1..200 chars, case twins) x name as typed x key (RSA 2048/3072/4096, P-256/384/521, Ed25519) x certificate type, with group mode, SSH extension template set and URL target variant cycled so that every pair occurs (thorough: full product for the default deployment); every returned certificate is decoded independently and compared with (normalised user, submitted key, published CA keys, expected extensions/SAN/groups)",
 		Assumptions: []string{"when a configured extension key collides with a standard one the value is not judged", "ed25519 subject keys without an Ed25519 CA, and group lookups that fail when groups are requested, may be refused"},
 		Shards: func(tier string) int { return 16 },
 		Run: func(c *vfeng.Ctx) {
